@@ -44,10 +44,26 @@ func HC19Recount() {
 	var recvN, sentN uint64
 	var recvBytes, recvHdr, sentBytes, sentHdr uint64
 	var inNack, inPli, inFir, outNack, outPli, outFir uint32
+	var remoteLost int64
+	var remoteFrac uint8
+	haveRemote := false
 	base := int64(vr.NondetInt(1<<17+8, 1<<17+65535))
 	first, highest := int64(-1), int64(-1)
 	for ev := 0; ev < nev; ev++ {
-		switch vr.Concretize(vr.NondetInt(0, 3)) {
+		switch vr.Concretize(vr.NondetInt(0, 4)) {
+		case 4: // incoming receiver report with two reception report blocks
+			s1, s2 := c19ssrc(), c19ssrc()
+			l1, l2 := uint32(vr.NondetInt(0, 1<<23)), uint32(vr.NondetInt(0, 1<<23))
+			f1, f2 := uint8(vr.NondetInt(0, 255)), uint8(vr.NondetInt(0, 255))
+			rr := &rtcp.ReceiverReport{SSRC: 1, Reports: []rtcp.ReceptionReport{{SSRC: s1, TotalLost: l1, FractionLost: f1}, {SSRC: s2, TotalLost: l2, FractionLost: f2}}}
+			st = r.recordIncomingRTCP(st, &incomingRTCP{ts: c19epoch, pkts: []rtcp.Packet{rr}})
+			if s1 == 100 {
+				remoteLost, remoteFrac, haveRemote = int64(l1), f1, true
+			}
+			if s2 == 100 {
+				remoteLost, remoteFrac, haveRemote = int64(l2), f2, true
+				vr.Cover("report block for the stream after another block")
+			}
 		case 0: // incoming RTP
 			s := c19ssrc()
 			t := base + int64(vr.NondetInt(-3, 3))
@@ -129,4 +145,7 @@ func HC19Recount() {
 	}
 	vr.Assert(out.NACKCount == inNack && out.PLICount == inPli && out.FIRCount == inFir, "incoming NACK/PLI/FIR addressed to this SSRC counted")
 	vr.Assert(in.NACKCount == outNack && in.PLICount == outPli && in.FIRCount == outFir, "outgoing NACK/PLI/FIR addressed to this SSRC counted")
+	if haveRemote {
+		vr.Assert(st.RemoteInboundRTPStreamStats.PacketsLost == remoteLost && st.RemoteInboundRTPStreamStats.FractionLost == float64(remoteFrac)/256.0, "remote loss figures from the most recent report block addressed to this SSRC")
+	}
 }
